@@ -25,6 +25,10 @@ def units(tier):
     us += func_units(M + "._set_attribute_single", tier, only=lambda i: i["field"] in ("DF394", "DF395", "DF396", "PRN", "CELLPRN", "CELLSIG"))
     us.append(lemma_unit("msm.fold_lemmas", msm.fold_lemmas))
     us.append(ground_unit("tables.msm", tablecheck.msm_table_lemmas))
+    # the label option and the field types the maps depend on reach _getsatcellmaps unchanged: the static parser passes the option
+    # on, and the mask fields are the pinned unsigned bit fields
+    us += func_units("pyrtcm.rtcmreader.RTCMReader.parse", tier)
+    us.append(ground_unit("tables.field_entries", tablecheck.field_entry_lemmas))
     return us
 
 
@@ -34,6 +38,8 @@ def replay(o, seed):
         return C10.replay(o, seed)
     from props.common import try_candidates
     from props.replays import message_candidates
+    if "rtcmreader" in (o.get("unit") or o["name"]):
+        return generic_replay(o, seed)
     r = try_candidates("message_decode", message_candidates(o, seed, focus=lambda ident: "1070" <= ident <= "1229"), key=lambda i, r: "decode-msm")
     if r.get("reproduced"):
         return r
